@@ -318,28 +318,25 @@ Proof.
     rewrite E in B1, B2. lra.
 Qed.
 
-Lemma quant1_in_box (x : Q) : in_box1 x = true -> quant1 x = rha (x * 32768).
-Proof.
-  unfold in_box1, quant1, sat16. intro H. apply andb_true_iff in H. destruct H as [H1 H2].
-  apply Z.leb_le in H1. apply Z.leb_le in H2. lia.
-Qed.
+Lemma quant1_fin (x : Q) : fin_scaled1 x = true -> quant1 x = rha (x * 32768).
+Proof. unfold quant1. intro H. rewrite H. reflexivity. Qed.
 
 Lemma same_cell_near (a b : vec) :
-  in_box a = true -> in_box b = true -> quantise a = quantise b -> Forall2 near1 a b.
+  fin_scaled a = true -> fin_scaled b = true -> quantise a = quantise b -> Forall2 near1 a b.
 Proof.
   revert b. induction a as [|x a IH]; intros [|y b] Ha Hb H; cbn [quantise map] in H; try discriminate.
   - constructor.
-  - cbn [in_box forallb] in Ha, Hb. apply andb_true_iff in Ha. apply andb_true_iff in Hb.
+  - cbn [fin_scaled forallb] in Ha, Hb. apply andb_true_iff in Ha. apply andb_true_iff in Hb.
     destruct Ha as [Ha1 Ha2], Hb as [Hb1 Hb2]. inversion H as [[H1 H2]].
     constructor; [|apply IH; assumption].
-    rewrite (quant1_in_box _ Ha1), (quant1_in_box _ Hb1) in H1.
+    rewrite (quant1_fin _ Ha1), (quant1_fin _ Hb1) in H1.
     apply rha_near in H1. unfold near1. lra.
 Qed.
 
 (* C07_hit_same_or_similar *)
 Theorem hit_same_or_similar cfg ops scope q k r :
   let s := run_state cfg empty ops in
-  in_box q = true -> (forall e, In e (s_entries s) -> in_box (e_query e) = true) ->
+  fin_scaled q = true -> (forall e, In e (s_entries s) -> fin_scaled (e_query e) = true) ->
   snd (get_scoped cfg s scope q k) = Some r ->
   exists e, In e (s_entries s) /\ e_scope e = scope /\ (k <= e_kreq e)%nat /\
             r = firstn k (e_results e) /\
@@ -384,20 +381,17 @@ Lemma pre_m_sound m q x w : length q = length x -> pre_m m q x w = false -> dist
 Proof. unfold pre_m. apply prefilter_sound. Qed.
 
 
-(* the saturation witness *)
+(* the OLD (saturating i16) quantisation made dissimilar queries share a key; the current one does not *)
 Lemma near1_dec_false (x y : Q) : Qleb (1 # 32768) (x - y) = true -> ~ near1 x y.
 Proof. intros H [_ N]. apply Qleb_iff in H. lra. Qed.
 
-Lemma saturation_refuted :
-  exists r, snd (get_scoped (mkCfg 4 1 2000) (run_state (mkCfg 4 1 2000) empty [OInsert 0 [5; 3] [(1%N, 0)] 1]) 0 [2; 7] 1) = Some r /\
-  forall e, In e (s_entries (run_state (mkCfg 4 1 2000) empty [OInsert 0 [5; 3] [(1%N, 0)] 1])) ->
-    ~ (Forall2 near1 [2; 7] (e_query e) \/
-       c_thr (mkCfg 4 1 2000) * c_thr (mkCfg 4 1 2000) < cos_ssq [2; 7] (e_query e)).
+Lemma old_quantisation_saturates :
+  quantise_old [2; 7] = quantise_old [5; 3] /\ ~ Forall2 near1 [2; 7] [5; 3] /\
+  quantise [2; 7] <> quantise [5; 3] /\
+  snd (get_scoped (mkCfg 4 1 2000) (run_state (mkCfg 4 1 2000) empty [OInsert 0 [5; 3] [(1%N, 0)] 1]) 0 [2; 7] 1) = None.
 Proof.
-  eexists. split; [vm_compute; reflexivity|].
-  intros e He. vm_compute in He. destruct He as [He|[]]. subst e. cbn [e_query c_thr].
-  intros [H|H].
-  - inversion H as [|? ? ? ? _ H2]; subst. inversion H2 as [|? ? ? ? H3 _]; subst.
+  split; [vm_compute; reflexivity|]. split.
+  - intro H. inversion H as [|? ? ? ? _ H2]; subst. inversion H2 as [|? ? ? ? H3 _]; subst.
     revert H3. apply near1_dec_false. vm_compute. reflexivity.
-  - vm_compute in H. discriminate.
+  - split; [vm_compute; discriminate|vm_compute; reflexivity].
 Qed.
